@@ -25,6 +25,7 @@
  Rv verbose       : blocks guarded by the verbose flag only report; the design does not depend on the logging flag.
  Re for-each      : loops that act on every item are never left early (break / return).
  R7 selected budget: power reduction of the SELECTED model; cached span loss includes the padding (shared with C10-R3, C17-R6).
+ Rn arg roles     : a variable named like a parameter of the callee is handed to that parameter (no exchanged roles).
 """
 import ast
 
@@ -432,6 +433,15 @@ def r7_selected_budget(ctx):
     r6_padding_cache(ctx)
 
 
+def rn_arg_roles(ctx):
+    """Rn: a variable named like a parameter of the callee is handed to that parameter (no exchanged roles such as
+    f(to_degree, from_degree) for def f(from_degree, to_degree)); calls to resolved package functions, canonical form"""
+    from .common import arg_roles_rule
+    from ..memo import scope_funcs
+    n = arg_roles_rule(ctx, 'Rn.arg-roles', scope_funcs(ctx.repo, 'C09'), 'the budget would be computed with exchanged quantities')
+    ctx.check('Rn.arg-roles', 'argument / parameter name scan', True, 'C09|arg-roles-scan', '', f'{n} argument(s) named like another parameter judged')
+
+
 from ..memo import rule_for as _memo_rule
 
 RULES_MEMO = ('Rm.memo', _memo_rule('C09', 'the operating point designed for another element or reference would be reused'))
@@ -441,4 +451,4 @@ from ..presence import rule_for as _presence_rule
 
 RULES_PRESENCE = ('Rp.presence', _presence_rule('C09', 'a configured power / gain / VOA of exactly 0 would be replaced by another value in the budget'))
 
-RULES = [('R6.span-loss', r6_span_loss), ('R1.budget', r1_budget), ('R2.rule', r2_rule), ('R3.saturation', r3_saturation), ('R4.voa', r4_voa), ('R5.chaining', r5_chaining), RULES_MEMO, RULES_PRESENCE, ('Rv.verbose-pure', rv_verbose), ('Re.for-each', re_foreach), ('R7.selected-budget', r7_selected_budget)]
+RULES = [('R6.span-loss', r6_span_loss), ('R1.budget', r1_budget), ('R2.rule', r2_rule), ('R3.saturation', r3_saturation), ('R4.voa', r4_voa), ('R5.chaining', r5_chaining), RULES_MEMO, RULES_PRESENCE, ('Rv.verbose-pure', rv_verbose), ('Re.for-each', re_foreach), ('R7.selected-budget', r7_selected_budget), ('Rn.arg-roles', rn_arg_roles)]
